@@ -94,6 +94,7 @@ var SiteNames = []string{
 	"skip.slice",
 	"struct.size", "struct.descriptor", "map.size", "map.append", "slice.size", "slice.encode", "json.size", "json.encode",
 	"map.iter1", "map.iterN", "map.iterEnd",
+	"auto.atomic", "auto.lock", "auto.call",
 	"simreg.load", "simreg.storeOrSwap",
 	"op.begin", "op.end",
 }
